@@ -1,7 +1,7 @@
 (* C01 - angles stay canonical and core operations stay total.  Pinned theorems only. *)
 From Coq Require Import ZArith List Bool Reals Lra.
 From Flocq Require Import Core BinarySingleNaN.
-Require Import GV.FloatBase GV.FloatLemmas GV.AngleM GV.AngleProofs GV.GeonumM GV.GeonumProofs GV.NewProofs.
+Require Import GV.FloatBase GV.FloatLemmas GV.AngleM GV.AngleProofs GV.GeonumM GV.GeonumProofs GV.NewProofs GV.CtorProofs GV.ClosureProofs.
 Open Scope R_scope.
 
 (* Canon a : finite remainder with 0 <= rem <= q - 1e-10 (q the double nearest pi/2), blade >= 0 *)
@@ -62,3 +62,31 @@ Example C01_new_total_inhabited :
   to_bits (total_angle (of_Z (-49980)) (of_Z 3)) = 13900798258699014939%Z /\
   (to_bits (rem (new (of_Z (-49980)) (of_Z 3))), blade (new (of_Z (-49980)) (of_Z 3))) = (0%Z, 4%Z).
 Proof. split; [reflexivity|]. split; vm_compute; reflexivity. Qed.
+
+(* canonical angles are closed under every Geonum operation (CanonG g := Canon (ang g)) *)
+Theorem C01_geonum_closed_pure : forall g h r f, CanonG g -> CanonG h -> Canon r -> fin f ->
+  CanonG (gmul_vv g h) /\ CanonG (grotate g r) /\ CanonG (gscale g f) /\ CanonG (gnegate g) /\
+  CanonG (gdual g) /\ CanonG (gundual g) /\ CanonG (differentiate g) /\ CanonG (integrate g) /\
+  CanonG (increment_blade g) /\ CanonG (decrement_blade g) /\ CanonG (gbase_angle g) /\
+  CanonG (reflect g h) /\ CanonG (scale_rotate g f r) /\
+  (forall i, inv g = Some i -> CanonG i) /\ (forall q, gdiv_vv g h = Some q -> CanonG q).
+Proof. exact closure_pure. Qed.
+Print Assumptions C01_geonum_closed_pure.
+
+(* ... including the ones that call libm, whatever libm returns *)
+Theorem C01_geonum_closed_encoded : forall (L : libm) g h a, CanonG g -> CanonG h -> Canon a -> (blade (ang g) < 2 ^ 53)%Z ->
+  CanonG (distance_to L g h) /\ CanonG (project_to_angle L g a) /\
+  (fin (dot_value L g h) -> CanonG (dot L g h)) /\
+  (fin (cosF L (grade_angle a)) -> CanonG (gcos L a)) /\
+  (fin (sinF L (grade_angle a)) -> CanonG (gsin L a)) /\
+  CanonG (wedge L g h) /\ CanonG (gproject L g h).
+Proof. exact closure_encoded. Qed.
+Print Assumptions C01_geonum_closed_encoded.
+
+Theorem C01_geonum_closed_add : forall (L : libm) g h, CanonG g -> CanonG h -> (blade (ang g) + blade (ang h) < 2 ^ 53)%Z ->
+  (aeqb (ang g) (ang h) = false ->
+   aeqb (add_vv (ang g) (new one one)) (ang h) || aeqb (add_vv (ang h) (new one one)) (ang g) = false ->
+   fin (total_angle (sum_adjusted L g h) PI) /\ Rabs (R_ (total_angle (sum_adjusted L g h) PI)) <= bpow radix2 42) ->
+  CanonG (gadd_vv L g h).
+Proof. exact closure_gadd. Qed.
+Print Assumptions C01_geonum_closed_add.
